@@ -503,6 +503,13 @@ def register(reg):
                     ("refused_only_above_goaway_last_stream_id", ("C14", "C15"), z3.And(term.t != 0, z3.Not(sid.none), sid.val.t > last)),
                     ("refusal_before_any_read", ("C14",), len(c.events("net.read")) == 0 and len(c.events("call:" + H2 + "._read_incoming_data")) == 0),
                 ]
+            if exc.cls == RPE and not exc.tag.get("from"):
+                # converse, from the property: a stream above the GOAWAY's last-stream-id (0 included: nothing was
+                # processed) is re-sent elsewhere, i.e. refused with ConnectionNotAvailable - never failed
+                sid = c.args["stream_id"]
+                term = c.new(s, "H2._connection_terminated")
+                last = F(c, term, "E2.last_stream_id")
+                out.append(("stream_above_goaway_last_stream_id_is_refused_not_failed", ("C14",), z3.Not(z3.And(term.t != 0, z3.Not(sid.none), sid.val.t > 0, sid.val.t > last))))
             return out
 
     # ================================================================== _receive_stream_event
